@@ -133,6 +133,7 @@ Inductive prog :=
 | Wr (T : tab) (k : key) (v : val) (c : prog)      (* d[k] = v *)
 | Pop (T : tab) (k : key) (c : option val -> prog) (* d.pop(k, None) *)
 | Size (T : tab) (c : nat -> prog)                 (* len(d) / bool(d) *)
+| Keys (T : tab) (c : list key -> prog)            (* tuple(d): an atomic snapshot of the keys *)
 | ItBegin (T : tab) (c : prog)                     (* iter(d) *)
 | ItNext (c : itres -> prog)                       (* next(it) *)
 | Yield (y : ypoint) (c : prog).                   (* yield point (no effect) *)
@@ -144,6 +145,7 @@ Fixpoint bind (p : prog) (k : list outcome -> prog) : prog :=
   | Wr T x v c => Wr T x v (bind c k)
   | Pop T x c => Pop T x (fun r => bind (c r) k)
   | Size T c => Size T (fun n => bind (c n) k)
+  | Keys T c => Keys T (fun l => bind (c l) k)
   | ItBegin T c => ItBegin T (bind c k)
   | ItNext c => ItNext (fun r => bind (c r) k)
   | Yield y c => Yield y (bind c k)
@@ -160,6 +162,7 @@ Definition step (s : store) (t : thread) : store * thread :=
   | Wr T k v c => (update s T k v, mkT c it)
   | Pop T k c => (remove s T k, mkT (c (lookup s T k)) it)
   | Size T c => (s, mkT (c (size s T)) it)
+  | Keys T c => (s, mkT (c (keys s T)) it)
   | ItBegin T c => (s, mkT c (Some (T, 0, size s T)))
   | ItNext c =>
       match it with
@@ -272,6 +275,17 @@ Fixpoint micro_of (fuel : nat) (sched : list nat) (c : config) : list nat :=
 Definition outcomes (c : config) : list (option (list outcome)) := map finished (snd c).
 
 (* ----------------------------------------------------- scenario descriptors *)
+(* Which of the proposed repairs are present in the tree under test (detected from the source
+   by harness/tables/ConcFixes.py).  `no_fixes` is the pinned tree. *)
+Record fixes := mkX {
+  fx30 : bool;   (* hook scan iterates over tuple(hooks) *)
+  fx31 : bool;   (* the JSON-path tables are always (re)written: no `set_paths` guard *)
+  fx32 : bool;   (* FIELD_TO_DEFAULT[cls] is published after it has been filled *)
+  fx33 : bool;   (* v1: the catch-all entry is read, not popped *)
+  fx34 : bool    (* Env.reload() loads `environ` before it touches Env.var_names *)
+}.
+Definition no_fixes : fixes := mkX false false false false false.
+
 Record fdesc := mkF { fd_dflt : bool; fd_path : bool }.
 Record cdesc := mkC {
   cd_fields : list fdesc;
@@ -334,15 +348,20 @@ Definition p_fields (c : prog) : prog :=
     end).
 
 (* dataclass_field_to_default(cls): the inner dict is REGISTERED EMPTY, then filled *)
-Definition p_defaults (cd : cdesc) (c : prog) : prog :=
+Definition p_defaults (fx : fixes) (cd : cdesc) (c : prog) : prog :=
   Rd T_DEFREG 0 (fun r =>
     match r with
     | Some _ => Rd T_DEFREG 0 (fun r2 => need r2 (fun _ => c))
     | None =>
-        Yield Y_defaults_miss (Wr T_DEFREG 0 VU (Yield Y_defaults_registered
-          (p_fields (for_fields (cd_fields cd) 0
-             (fun i f k => Yield Y_defaults_fill (if fd_dflt f then Wr T_DEFAULTS i VU k else k))
-             (Rd T_DEFREG 0 (fun r2 => need r2 (fun _ => c)))))))
+        let fill (k : prog) :=
+          Yield Y_defaults_registered
+            (p_fields (for_fields (cd_fields cd) 0
+               (fun i f k => Yield Y_defaults_fill (if fd_dflt f then Wr T_DEFAULTS i VU k else k)) k)) in
+        let ret := Rd T_DEFREG 0 (fun r2 => need r2 (fun _ => c)) in
+        Yield Y_defaults_miss
+          (if fx32 fx
+           then fill (Wr T_DEFREG 0 VU ret)          (* repaired: filled, THEN published *)
+           else Wr T_DEFREG 0 VU (fill ret))         (* pinned: registered empty, then filled *)
     end).
 
 (* get_loader(cls) *)
@@ -364,13 +383,13 @@ Definition p_dumper (tid : nat) (c : nat -> prog) : prog :=
     end).
 
 (* dataclass_field_to_load_parser -> _setup_load_config_for_cls *)
-Definition p_load_cfg (cd : cdesc) (c : prog) : prog :=
+Definition p_load_cfg (fx : fixes) (cd : cdesc) (c : prog) : prog :=
   Rd T_PARSERS 0 (fun r =>
     match r with
     | Some _ => Rd T_PARSERS 0 (fun r2 => need r2 (fun _ => c))
     | None =>
         Size T_PATH (fun n =>
-          let set_paths := Nat.eqb n 0 in
+          let set_paths := fx31 fx || Nat.eqb n 0 in
           Yield Y_load_cfg_begin (p_fields (for_fields (cd_fields cd) 0
             (fun i f k => Yield Y_load_cfg_field
                (if fd_path f
@@ -380,13 +399,13 @@ Definition p_load_cfg (cd : cdesc) (c : prog) : prog :=
     end).
 
 (* setup_dump_config_for_cls_if_needed *)
-Definition p_dump_cfg (cd : cdesc) (c : prog) : prog :=
+Definition p_dump_cfg (fx : fixes) (cd : cdesc) (c : prog) : prog :=
   Rd T_DUMPFLAG 0 (fun r =>
     match r with
     | Some _ => c
     | None =>
         Yield Y_dump_cfg_begin (Size T_PATH (fun n =>
-          let set_paths := Nat.eqb n 0 in
+          let set_paths := fx31 fx || Nat.eqb n 0 in
           Yield Y_dump_cfg_paths_read (p_fields (for_fields (cd_fields cd) 0
             (fun i f k => Yield Y_dump_cfg_field
                (if fd_path f
@@ -440,24 +459,24 @@ Definition run_load_fn (cd : cdesc) (d : list nat) (ks : list kspec) : prog :=
       if Nat.eqb loop 1 then key_loop ks final else final
   end.
 
-Definition gen_load (tid : nat) (cd : cdesc) (ks : list kspec) : prog :=
-  Yield Y_load_gen (p_fields (p_loader tid (p_load_cfg cd
+Definition gen_load (fx : fixes) (tid : nat) (cd : cdesc) (ks : list kspec) : prog :=
+  Yield Y_load_gen (p_fields (p_loader tid (p_load_cfg fx cd
     (Size T_PATH (fun num_paths =>
        Rd T_JSON2F K_CATCH_ALL (fun _ =>
          let finish (d : list nat) :=
            Yield Y_load_setattr (p_setattr cd 0 (Yield Y_load_store
              (Wr T_LOADFUNC 0 (VL d) (run_load_fn cd d ks)))) in
          if Nat.eqb num_paths 0 then finish [1]
-         else p_fields (p_defaults cd (ItBegin T_PATH
+         else p_fields (p_defaults fx cd (ItBegin T_PATH
                 (it_collect (Datatypes.S (Datatypes.S (List.length (cd_fields cd)))) []
                    (fun snap => finish ((if Nat.eqb num_paths (List.length (cd_fields cd)) then 0 else 1) :: snap))))))))))).
 
-Definition call_load (tid : nat) (cd : cdesc) (ks : list kspec) : prog :=
+Definition call_load (fx : fixes) (tid : nat) (cd : cdesc) (ks : list kspec) : prog :=
   Rd T_LOADFUNC 0 (fun r =>
     match r with
     | Some (VL d) => run_load_fn cd d ks
     | Some _ => Ret [OErr ETypeError]
-    | None => Yield Y_load_miss (gen_load tid cd ks)
+    | None => Yield Y_load_miss (gen_load fx tid cd ks)
     end).
 
 (* ------------------------------------------------------------ dump (v0) *)
@@ -489,28 +508,44 @@ Fixpoint hook_scan (fuel : nat) (o : nat) (v : vty) (c : prog) : prog :=
 
 Definition SCAN_FUEL : nat := 64.
 
-Definition p_value (o : nat) (v : vty) (c : prog) : prog :=
+(* repaired variant: `for t in tuple(hooks)` walks a private snapshot *)
+Fixpoint hook_scan_snap (l : list key) (o : nat) (v : vty) (c : prog) : prog :=
+  match l with
+  | [] => Yield Y_hook_scan_store (Wr (T_HOOKS o) (tkey_of v) VDefaultHook c)
+  | t :: r =>
+      Yield Y_hook_scan_iter
+        (if matches v t
+         then Yield Y_hook_scan_store
+                (Rd (T_HOOKS o) t (fun h => need h (fun hv => Wr (T_HOOKS o) (tkey_of v) hv c)))
+         else hook_scan_snap r o v c)
+  end.
+
+Definition p_value (fx : fixes) (o : nat) (v : vty) (c : prog) : prog :=
   Rd (T_HOOKS o) (tkey_of v) (fun h =>
     match h with
     | Some _ => c
-    | None => Yield Y_hook_scan_begin (ItBegin (T_HOOKS o) (hook_scan SCAN_FUEL o v c))
+    | None =>
+        Yield Y_hook_scan_begin
+          (if fx30 fx
+           then Keys (T_HOOKS o) (fun l => hook_scan_snap l o v c)
+           else ItBegin (T_HOOKS o) (hook_scan SCAN_FUEL o v c))
     end).
 
-Fixpoint dump_values (cd : cdesc) (o : nat) (skip : list nat) (i : nat) (vals : list vty) (c : prog) : prog :=
+Fixpoint dump_values (fx : fixes) (cd : cdesc) (o : nat) (skip : list nat) (i : nat) (vals : list vty) (c : prog) : prog :=
   match vals with
   | [] => c
   | v :: r =>
       if cd_skipdef cd && mem i skip
-      then dump_values cd o skip (Datatypes.S i) r c
-      else p_value o v (dump_values cd o skip (Datatypes.S i) r c)
+      then dump_values fx cd o skip (Datatypes.S i) r c
+      else p_value fx o v (dump_values fx cd o skip (Datatypes.S i) r c)
   end.
 
 (* the generated `cls_asdict`: d = owner of the dumper :: fields compiled with a skip-default test *)
-Definition run_dump_fn (cd : cdesc) (d : list nat) (vals : list vty) : prog :=
+Definition run_dump_fn (fx : fixes) (cd : cdesc) (d : list nat) (vals : list vty) : prog :=
   match d with
   | [] => Ret [OErr ETypeError]
   | o :: skip =>
-      dump_values cd o skip 0 vals
+      dump_values fx cd o skip 0 vals
         (Ret [if cd_skipdef cd && negb (subset (dflt_ids (cd_fields cd) 0) skip) then OWrong else OSeq])
   end.
 
@@ -532,20 +567,20 @@ Fixpoint gen_dump_fields (fs : list fdesc) (i : nat) (skip : list nat) (c : list
           end))
   end.
 
-Definition gen_dump (tid : nat) (cd : cdesc) (vals : list vty) : prog :=
+Definition gen_dump (fx : fixes) (tid : nat) (cd : cdesc) (vals : list vty) : prog :=
   Yield Y_dump_gen (p_dumper tid (fun o =>
-    p_dump_cfg cd (Yield Y_dump_cfg_done (p_defaults cd (p_fields
+    p_dump_cfg fx cd (Yield Y_dump_cfg_done (p_defaults fx cd (p_fields
       (Rd T_ALIAS K_CATCH_ALL (fun _ => Size T_PATH (fun _ =>
          gen_dump_fields (cd_fields cd) 0 [] (fun skip =>
            Yield Y_dump_setattr (p_setattr cd 1 (Yield Y_dump_store
-             (Wr T_DUMPFUNC 0 (VL (o :: skip)) (run_dump_fn cd (o :: skip) vals))))))))))))).
+             (Wr T_DUMPFUNC 0 (VL (o :: skip)) (run_dump_fn fx cd (o :: skip) vals))))))))))))).
 
-Definition call_dump (tid : nat) (cd : cdesc) (vals : list vty) : prog :=
+Definition call_dump (fx : fixes) (tid : nat) (cd : cdesc) (vals : list vty) : prog :=
   Rd T_DUMPFUNC 0 (fun r =>
     match r with
-    | Some (VL d) => run_dump_fn cd d vals
+    | Some (VL d) => run_dump_fn fx cd d vals
     | Some _ => Ret [OErr ETypeError]
-    | None => Yield Y_dump_miss (gen_dump tid cd vals)
+    | None => Yield Y_dump_miss (gen_dump fx tid cd vals)
     end).
 
 (* -------------------------------------------- EnvWizard.__init__ (one required field) *)
@@ -592,8 +627,9 @@ Definition p_load_environ (tid : nat) (force : bool) (c : prog) : prog :=
     else c).
 
 (* Env.reload() *)
-Definition p_reload (tid : nat) (c : prog) : prog :=
-  p_varnames (10 * tid + 1) (fun a =>
+Definition p_reload (fx : fixes) (tid : nat) (c : prog) : prog :=
+  (if fx34 fx then p_load_environ tid false else (fun k : prog => k))
+  (p_varnames (10 * tid + 1) (fun a =>
     p_load_environ tid true
       (Rd T_OBJ a (fun old =>
          Wr T_OBJ a (VN 1)
@@ -601,10 +637,10 @@ Definition p_reload (tid : nat) (c : prog) : prog :=
               if is_some acc
               then p_cleaned tid (fun cobj => Rd T_OBJ cobj (fun cc =>
                      Wr T_OBJ cobj (VN (if Nat.eqb (content old) 1 then content cc else 1)) c))
-              else c))))).
+              else c)))))).
 
-Definition call_env (tid : nat) (reload : bool) : prog :=
-  (if reload then p_reload tid else p_load_environ tid false)
+Definition call_env (fx : fixes) (tid : nat) (reload : bool) : prog :=
+  (if reload then p_reload fx tid else p_load_environ tid false)
     (p_member (10 * tid + 1) (fun c1 =>            (* upper_key in Env.var_names *)
        if Nat.eqb c1 1 then Ret [OSeq]
        else p_member (10 * tid + 1) (fun _ =>      (* field_name in Env.var_names *)
@@ -612,32 +648,32 @@ Definition call_env (tid : nat) (reload : bool) : prog :=
                 Ret [if Nat.eqb (content cc) 1 then OSeq else OErr EMissingVars]))))).
 
 (* ---------------------------------------------------------------- threads *)
-Definition call_prog (tid : nat) (cd : cdesc) (c : call) : prog :=
+Definition call_prog (fx : fixes) (tid : nat) (cd : cdesc) (c : call) : prog :=
   match c with
-  | CLoad ks => call_load tid cd ks
-  | CDump vals => call_dump tid cd vals
-  | CEnv reload => call_env tid reload
+  | CLoad ks => call_load fx tid cd ks
+  | CDump vals => call_dump fx tid cd vals
+  | CEnv reload => call_env fx tid reload
   end.
 
-Fixpoint thread_prog (tid : nat) (cd : cdesc) (cs : list call) : prog :=
+Fixpoint thread_prog (fx : fixes) (tid : nat) (cd : cdesc) (cs : list call) : prog :=
   match cs with
   | [] => Ret []
-  | c :: r => bind (call_prog tid cd c) (fun o1 => bind (thread_prog tid cd r) (fun o2 => Ret (o1 ++ o2)))
+  | c :: r => bind (call_prog fx tid cd c) (fun o1 => bind (thread_prog fx tid cd r) (fun o2 => Ret (o1 ++ o2)))
   end.
 
-Fixpoint thread_progs (tid : nat) (cd : cdesc) (ps : list (list call)) : list prog :=
-  match ps with [] => [] | cs :: r => thread_prog tid cd cs :: thread_progs (Datatypes.S tid) cd r end.
+Fixpoint thread_progs (fx : fixes) (tid : nat) (cd : cdesc) (ps : list (list call)) : list prog :=
+  match ps with [] => [] | cs :: r => thread_prog fx tid cd cs :: thread_progs fx (Datatypes.S tid) cd r end.
 
 Definition initial_store (cd : cdesc) : store :=
   if cd_dumpmeta cd then [(T_DUMPER, 0, VN 90)] else [].
 
-Definition scenario (cd : cdesc) (ps : list (list call)) : config :=
-  (initial_store cd, start (thread_progs 0 cd ps)).
+Definition scenario (fx : fixes) (cd : cdesc) (ps : list (list call)) : config :=
+  (initial_store cd, start (thread_progs fx 0 cd ps)).
 
 (* ------- abstract protocol: v1 `field_to_aliases.pop(CATCH_ALL, None)` on the shared alias table *)
 (* v1 load_func_for_dataclass for a class with a CatchAll field: the set-up writes the catch-all
    entry into the shared table once (guarded by IS_V1_LOAD_CONFIG_SETUP); every generation POPs it. *)
-Definition call_v1_catchall : prog :=
+Definition call_v1_catchall (fx : fixes) : prog :=
   Rd T_LOADFUNC 0 (fun r =>
     match r with
     | Some (VN 1) => Ret [OSeq]
@@ -650,7 +686,7 @@ Definition call_v1_catchall : prog :=
                               | None => Wr T_V1ALIAS K_CATCH_ALL VU (Yield Y_v1_cfg_flag (Wr T_V1FLAG 0 VU k))
                               end)
              (Yield Y_v1_load_aliases_read
-               (Pop T_V1ALIAS K_CATCH_ALL (fun ca =>
+               ((if fx33 fx then Rd T_V1ALIAS K_CATCH_ALL else Pop T_V1ALIAS K_CATCH_ALL) (fun ca =>
                   let has := if is_some ca then 1 else 0 in
                   Yield Y_v1_load_store (Wr T_LOADFUNC 0 (VN has)
                     (Ret [if Nat.eqb has 1 then OSeq else OErr ETypeError])))))))
